@@ -64,7 +64,7 @@ func mirrorSFlowDispatcher(ch chan SFUDPMsg) {
 
 func mirrorSFlow(dst net.IP, port int, ch chan SFUDPMsg) error {
 	var (
-		packet = make([]byte, opts.SFlowUDPSize)
+		packet = make([]byte, opts.SFlowUDPSize+mirror.IPv6HLen+mirror.UDPHLen)
 		msg    SFUDPMsg
 		pLen   int
 		err    error
